@@ -386,8 +386,10 @@ def check_flips(acc: Acc, ash, label, raw: bytes, e2e_every: int = 1):
             proto, up, tr, log = new_protocol()
             proto.data_received(R.stuff(bad) + bytes([R.FLAG]))
             dec = decode_writes(log)
-            if [e[:3] for e in dec] != [("tx", "NAK", 0)]:
-                acc.violation("C03/corruption/e2e", f"corrupted frame {bad.hex()} produced {dec!r} instead of one NAK(0) and no upward event", case)
+            # "is rejected": nothing is handed up; what is written back must be a well-formed ACK / NAK frame carrying
+            # the unchanged expected number (that it is a NAK is C02's clause)
+            if any(e[0].startswith("up") for e in dec) or any(e[0] != "tx" or e[2] != 0 for e in dec if not e[0].startswith("up")):
+                acc.violation("C03/corruption/e2e", f"corrupted frame {bad.hex()} produced {dec!r}: expected no upward event and at most ACK/NAK frames numbered 0", case)
             else:
                 acc.hit("flip_e2e_nak")
     acc.nontrivial(("flip", label, raw))
@@ -448,6 +450,8 @@ def part_g(desc) -> Acc:
                     host_rx = (host_rx + 1) % 8
                     acc.case()
                     w = [e for e in log[mark:] if e[0] == "wr"]
+                    # C03 is about the LAYOUT of what the host writes: an accepted frame draws an ACK (C04), and that
+                    # ACK must be the reference encoding of its fields, bit for bit
                     if len(w) != 1 or w[0][1] != R.encode_ack(host_rx):
                         acc.violation("C03/wire/ACK", f"ACK on the wire {[x[1].hex() for x in w]} want {R.encode_ack(host_rx).hex()}", {"part": "g", "what": "ack"})
                     else:
@@ -458,9 +462,14 @@ def part_g(desc) -> Acc:
                     proto.data_received(R.encode_data((host_rx + 2) % 8, 0, host_tx, b"x"))
                     acc.case()
                     w = [e for e in log[mark:] if e[0] == "wr"]
-                    if len(w) != 1 or w[0][1] != R.encode_nak(host_rx):
-                        acc.violation("C03/wire/NAK", f"NAK on the wire {[x[1].hex() for x in w]} want {R.encode_nak(host_rx).hex()}", {"part": "g", "what": "nak"})
-                    else:
+                    # which answer an out-of-sequence frame draws (a NAK, an ACK, at times none) is the receive rule's
+                    # business (C04 / C02); here only: whatever is written is the reference encoding of an ACK or NAK
+                    # carrying the next expected number
+                    okw = all(x[1] in (R.encode_nak(host_rx), R.encode_ack(host_rx)) for x in w)
+                    if not okw:
+                        acc.violation("C03/wire/NAK", f"answer to an out-of-sequence frame on the wire {[x[1].hex() for x in w]}, want {R.encode_nak(host_rx).hex()} "
+                                      f"(or {R.encode_ack(host_rx).hex()})", {"part": "g", "what": "nak"})
+                    elif any(x[1] == R.encode_nak(host_rx) for x in w):
                         acc.hit("wire_NAK")
                 retries = rnd.choice([0, 0, 1, 2])
                 mark = len(log)
